@@ -18,6 +18,7 @@ import (
 	"encoding/json"
 	"fmt"
 	"os"
+	"os/exec"
 	"path/filepath"
 	"sort"
 	"strings"
@@ -208,6 +209,7 @@ type stepObs struct {
 }
 
 var devNull *os.File
+var cliBinary string // thorough tier: cmd/esbuild built from the tree under test
 var knownSeen = map[string]int{}
 
 func failKnown2(st *Stats, fk func(string, interface{}, interface{}, interface{}), kind string, input, got, expect interface{}) {
@@ -286,6 +288,7 @@ func runScenario(sc *scenario, st *Stats, enc *encoder) string {
 	}
 
 	own := map[string]bool{}
+	prevFiles := initial.files
 	var obs []stepObs
 	base := time.Date(2001, 1, 1, 0, 0, 0, 0, time.UTC)
 	for i := range sc.steps {
@@ -306,6 +309,11 @@ func runScenario(sc *scenario, st *Stats, enc *encoder) string {
 		var res api.BuildResult
 		saved := os.Stdout
 		os.Stdout = devNull
+		var capture *os.File
+		if stdout {
+			capture, _ = os.CreateTemp("", "verif-c17-stdout-")
+			os.Stdout = capture
+		}
 		switch {
 		case sc.viaCLI != nil:
 			res = runCLI(sc, root, o, &errsAtEnd)
@@ -318,6 +326,12 @@ func runScenario(sc *scenario, st *Stats, enc *encoder) string {
 		}
 		os.Stdout = saved
 		after := takeSnap(root)
+		var printed []byte
+		if capture != nil {
+			capture.Close()
+			printed, _ = os.ReadFile(capture.Name())
+			os.Remove(capture.Name())
+		}
 
 		failedEarly := errsAtEnd != 0
 		if errsAtEnd < 0 { // validation error: the build never started
@@ -350,10 +364,33 @@ func runScenario(sc *scenario, st *Stats, enc *encoder) string {
 		}
 		sort.Strings(ob.rewritten)
 
+		// a file the user creates where none was is the user's, whatever an earlier build wrote there
+		for _, e := range stp.edits {
+			pp := strings.TrimPrefix(physPath(root+e.path), root)
+			if _, existed := prevFiles[pp]; !existed && e.content != nil {
+				delete(own, pp)
+			}
+		}
+		if stdout {
+			// stdout mode: the one reported output is what is printed, and only when the build succeeded and writes
+			want := []byte{}
+			if !failedEarly && write && len(res.OutputFiles) == 1 {
+				want = res.OutputFiles[0].Contents
+			}
+			if !bytes.Equal(printed, want) {
+				st.Fail("stdout-differs-from-reported-output", describe(sc, root, i, ""), string(printed), string(want))
+			}
+		}
 		oracle(sc, root, i, &ob, st, write, allow, stdout, outdirAbs, own)
 		for _, p := range ob.rewritten {
 			own[p] = true
 		}
+		for p := range before.files {
+			if _, ok := after.files[p]; !ok {
+				delete(own, p) // deleted: the context no longer has a file there
+			}
+		}
+		prevFiles = after.files
 		obs = append(obs, ob)
 		label := stp.label
 		if failedEarly {
@@ -402,25 +439,46 @@ func runScenario(sc *scenario, st *Stats, enc *encoder) string {
 func runCLI(sc *scenario, root string, _ api.BuildOptions, errsAtEnd *int) api.BuildResult {
 	args := append([]string{}, sc.viaCLI...)
 	args = append(args, "--log-level=silent")
-	po, err := cli.ParseBuildOptions(args)
+	// flags that only the CLI understands are not part of the API options
+	var apiArgs []string
+	for _, a := range args {
+		if !strings.HasPrefix(a, "--metafile=") && !strings.HasPrefix(a, "--mangle-cache=") {
+			apiArgs = append(apiArgs, a)
+		}
+	}
+	po, err := cli.ParseBuildOptions(apiArgs)
 	if err != nil {
-		*errsAtEnd = -1
-		return api.BuildResult{Errors: []api.Message{{Text: err.Error()}}}
+		panic("c17: cannot parse CLI arguments: " + err.Error())
 	}
 	po.AbsWorkingDir = root
 	po.Write = false
 	po.Metafile = true
 	dry := api.Build(po)
-	wd, _ := os.Getwd()
-	os.Chdir(root)
-	code := cli.Run(args)
-	os.Chdir(wd)
-	if code != 0 || len(dry.Errors) > 0 {
-		*errsAtEnd = 1
-		if code == 0 || len(dry.Errors) == 0 {
-			*errsAtEnd = 0 // disagreement between the dry run and the CLI: let the oracle look at the tree
+	code := 0
+	if cliBinary != "" {
+		// the real executable built from the tree under test
+		cmd := exec.Command(cliBinary, args...)
+		cmd.Dir = root
+		cmd.Stdout = os.Stdout
+		if err := cmd.Run(); err != nil {
+			code = 1
 		}
-		return api.BuildResult{Errors: dry.Errors, OutputFiles: nil}
+	} else {
+		wd, _ := os.Getwd()
+		os.Chdir(root)
+		code = cli.Run(args)
+		os.Chdir(wd)
+	}
+	if code != 0 {
+		// the CLI's own verdict: the build failed
+		*errsAtEnd = 1
+		return api.BuildResult{Errors: append(dry.Errors, api.Message{Text: "esbuild exited with a non-zero status"})}
+	}
+	if len(dry.Errors) > 0 {
+		// the CLI succeeded where the dry run failed: nothing is known to be
+		// reported, so that every write is flagged
+		*errsAtEnd = 0
+		return api.BuildResult{}
 	}
 	*errsAtEnd = 0
 	// the CLI also writes the metafile when asked to; that is a reported output of the CLI
@@ -457,6 +515,9 @@ func oracle(sc *scenario, root string, i int, ob *stepObs, st *Stats, write, all
 		if _, ok := after.files[rel]; !ok {
 			deleted = append(deleted, rel)
 		}
+	}
+	if os.Getenv("C17_DEBUG") != "" && sc.viaCLI != nil {
+		fmt.Fprintln(os.Stderr, "DEBUG", sc.viaCLI, "failedEarly", ob.failedEarly, "created", created, "write", write, "stdout", stdout)
 	}
 	sort.Strings(created)
 	sort.Strings(modified)
@@ -687,6 +748,7 @@ func genHistory(r *Rng, idx int) *scenario {
 	}
 	nSteps := r.Range(2, 5)
 	libV, assetV := 0, 0
+	var removedOuts []string
 	for s := 0; s < nSteps; s++ {
 		stp := stepSpec{label: "rebuild"}
 		if s > 0 {
@@ -724,6 +786,9 @@ func genHistory(r *Rng, idx int) *scenario {
 				case k == 8 && glob && len(ents) > 1:
 					e.deleted = true
 					stp.label = "remove-entry"
+					if o := outRel(e); o != "" {
+						removedOuts = append(removedOuts, o)
+					}
 				case k == 9:
 					e.asset = bundle && !e.asset
 					assetV++
@@ -743,6 +808,12 @@ func genHistory(r *Rng, idx int) *scenario {
 					}
 					stp.label = "fix-all"
 				}
+			}
+			// the user puts a file of their own where a removed entry's output used to be
+			if len(removedOuts) > 0 && stp.label != "remove-entry" && r.Chance(60) {
+				stp.edits = append(stp.edits, edit{removedOuts[0], sp("// the user's own file\n")})
+				removedOuts = removedOuts[1:]
+				stp.label += "+foreign-file-at-old-output"
 			}
 			// tamper with what is on disk in the output directory
 			if r.Chance(25) {
@@ -797,7 +868,7 @@ func genCollision(r *Rng, idx int) *scenario {
 	if r.Chance(10) {
 		sc.steps[0].onEndErr = true
 	}
-	k := idx % 15
+	k := idx % 16
 	var o api.BuildOptions
 	switch k {
 	case 0: // outdir equal to the source directory, same extension
@@ -873,6 +944,16 @@ func genCollision(r *Rng, idx int) *scenario {
 		sc.files["/src/dep.js"] = jsBody("dep", 1)
 		o = api.BuildOptions{Stdin: &api.StdinOptions{Contents: "import './dep.js'\n", ResolveDir: "src", Sourcefile: "in.js"}, Outfile: "src/dep.js", Bundle: true}
 		sc.desc = "stdin imports ./dep.js outfile=src/dep.js bundle"
+	case 15: // stdout mode: neither outfile nor outdir
+		sc.files["/src/a.js"] = "import './b.js'\n" + jsBody("a", 1)
+		sc.files["/src/b.js"] = jsBody("b", 1)
+		bundle := r.Bool()
+		eps := []string{"src/a.js"}
+		if !bundle && r.Chance(30) {
+			eps = append(eps, "src/b.js") // two entries without outdir: a validation error
+		}
+		o = api.BuildOptions{EntryPoints: eps, Bundle: bundle}
+		sc.desc = fmt.Sprintf("entries %v no outfile/outdir (stdout mode) bundle=%v", eps, bundle)
 	case 14: // an entry outside outbase: its output must stay inside outdir
 		sc.files["/src/a.js"] = jsBody("a", 1)
 		sc.files["/other/b.js"] = jsBody("b", 1)
@@ -974,7 +1055,16 @@ func fixedScenarios() []*scenario {
 			}
 		}
 		c.opts = func(string) api.BuildOptions {
-			o, _ := cli.ParseBuildOptions(args)
+			var apiArgs []string
+			for _, a := range args {
+				if !strings.HasPrefix(a, "--metafile=") && !strings.HasPrefix(a, "--mangle-cache=") {
+					apiArgs = append(apiArgs, a)
+				}
+			}
+			o, err := cli.ParseBuildOptions(apiArgs)
+			if err != nil {
+				panic("c17: cannot parse CLI arguments: " + err.Error())
+			}
 			o.Write = true
 			return o
 		}
@@ -1182,6 +1272,28 @@ func runC17(seed uint64, n int, tier string, outDir string) []*Stats {
 	}
 	for _, sc := range fixedScenarios() {
 		add(sc)
+	}
+	if tier == "thorough" {
+		// the same CLI scenarios through the executable built from the tree under test
+		repo := os.Getenv("VERIF_REPO")
+		if repo == "" {
+			repo = "/repo"
+		}
+		bin := filepath.Join(outDir, "esbuild-under-test")
+		cmd := exec.Command("go", "build", "-o", bin, "./cmd/esbuild")
+		cmd.Dir = repo
+		if outb, err := cmd.CombinedOutput(); err != nil {
+			panic("c17: cannot build cmd/esbuild: " + string(outb))
+		}
+		cliBinary = bin
+		for _, sc := range fixedScenarios() {
+			if sc.viaCLI != nil {
+				sc.kind = "cli-binary"
+				add(sc)
+			}
+		}
+		cliBinary = ""
+		os.Remove(bin)
 	}
 	nh := n / 4
 	for i := 0; i < nh; i++ {
